@@ -404,6 +404,9 @@ func (m *Machine) callSSA(caller *frame, callpos token.Pos, fn *ssa.Function, ar
 	if fn.Blocks == nil {
 		panic(unsupported{"no code for function: " + name})
 	}
+	if fn.Pos().IsValid() && strings.HasSuffix(m.prog.Fset.Position(fn.Pos()).Filename, "zz_verif_support.go") {
+		panic(unsupported{"harness intrinsic without engine implementation: " + name})
+	}
 	if fn.TypeParams().Len() > 0 && len(fn.TypeArgs()) == 0 {
 		panic(unsupported{"uninstantiated generic " + name})
 	}
